@@ -220,3 +220,239 @@ Proof.
   destruct (D (lookup k (ts_rows (r_state (exec_l bl sch st s args)))) (lookup k (ts_rows st))) as [E|N]; auto.
   apply statement_changes_only_locked_rows, statement_locks_are_free in N. congruence.
 Qed.
+
+(* ================================================================ the transaction table *)
+Lemma tx_get_del_eq c l : tx_get c (tx_del c l) = None.
+Proof.
+  induction l as [|[c' x] l IH]; cbn; auto.
+  destruct (Nat.eqb c c') eqn:E; cbn; auto. now rewrite E.
+Qed.
+
+Lemma tx_get_del_neq c c' l : c <> c' -> tx_get c (tx_del c' l) = tx_get c l.
+Proof.
+  intro N. induction l as [|[c0 x] l IH]; cbn; auto.
+  destruct (Nat.eqb c' c0) eqn:E; cbn.
+  - apply Nat.eqb_eq in E. subst. rewrite IH.
+    destruct (Nat.eqb c c0) eqn:E'; auto. apply Nat.eqb_eq in E'. congruence.
+  - now rewrite IH.
+Qed.
+
+Lemma tx_get_set_eq c x l : tx_get c (tx_set c x l) = Some x.
+Proof. unfold tx_set. cbn. now rewrite Nat.eqb_refl. Qed.
+
+Lemma tx_get_set_neq c c' x l : c <> c' -> tx_get c (tx_set c' x l) = tx_get c l.
+Proof.
+  intro N. unfold tx_set. cbn.
+  destruct (Nat.eqb c c') eqn:E; [apply Nat.eqb_eq in E; congruence|]. now apply tx_get_del_neq.
+Qed.
+
+Lemma tx_get_In c x l : tx_get c l = Some x -> In (c, x) l.
+Proof.
+  induction l as [|[c' x'] l IH]; cbn; [discriminate|].
+  destruct (Nat.eqb c c') eqn:E; intro H.
+  - apply Nat.eqb_eq in E. inversion H; subst. now left.
+  - right. auto.
+Qed.
+
+Lemma holds_In x k : holds x k = true <-> In k (x_locks x).
+Proof.
+  unfold holds. rewrite existsb_exists. split.
+  - intros [k' [I E]]. apply key_eqb_eq in E. now subst.
+  - intro I. exists k. split; auto. apply key_eqb_refl.
+Qed.
+
+Lemma add_locks_ext own new : exists suf, add_locks own new = own ++ suf /\ forall k, In k suf -> In k new.
+Proof.
+  unfold add_locks. revert own. induction new as [|k new IH]; intro own; cbn.
+  - exists []. split; [now rewrite app_nil_r | intros ? []].
+  - destruct (existsb (key_eqb k) own).
+    + destruct (IH own) as [suf [E S]]. exists suf. split; auto.
+    + destruct (IH (own ++ [k])) as [suf [E S]]. exists (k :: suf). split.
+      * now rewrite E, <- app_assoc.
+      * intros k0 [<-|I]; auto.
+Qed.
+
+Local Arguments tx_set : simpl never.
+Local Arguments commit_conn : simpl never.
+
+(* ================================================================ one step: who is touched *)
+Definition tx_of (d : dbst) (c : nat) : option txst := tx_get c (d_txs d).
+
+Lemma commit_conn_other d c c' : c' <> c -> tx_of (commit_conn d c) c' = tx_of d c'.
+Proof.
+  intro N. unfold commit_conn, tx_of. destruct (tx_get c (d_txs d)); cbn; auto.
+  now apply tx_get_del_neq.
+Qed.
+
+(* an operation of connection c leaves every other connection's transaction
+   (overlay, locks, savepoints) exactly as it was *)
+Theorem step_leaves_other_transactions sch d c o c' :
+  c' <> c -> tx_of (fst (step sch d c o)) c' = tx_of d c'.
+Proof.
+  intro N. unfold tx_of. destruct o; cbn.
+  - rewrite tx_get_set_neq by auto. apply commit_conn_other; auto.
+  - apply commit_conn_other; auto.
+  - now apply tx_get_del_neq.
+  - unfold run_stmt. destruct (tx_get c (d_txs d)); cbn; auto. now apply tx_get_set_neq.
+  - destruct (tx_get c (d_txs d)); cbn; auto. now apply tx_get_set_neq.
+  - destruct (tx_get c (d_txs d)) as [x|]; cbn; auto.
+    destruct (find_save name (x_saves x)) as [[sp older]|]; cbn; auto. now apply tx_get_set_neq.
+  - destruct (tx_get c (d_txs d)) as [x|]; cbn; auto.
+    destruct (find_save name (x_saves x)) as [[sp older]|]; cbn; auto. now apply tx_get_set_neq.
+  - now apply tx_get_del_neq.
+Qed.
+
+(* ================================================================ (a) atomicity *)
+(* COMMIT installs exactly what the connection saw (its working copy) and ends the transaction *)
+Theorem commit_installs_working_copy sch d c :
+  d_rows (fst (step sch d c OCommit)) = view d c /\ tx_of (fst (step sch d c OCommit)) c = None.
+Proof.
+  cbn. unfold commit_conn, view, tx_of. destruct (tx_get c (d_txs d)) as [x|] eqn:E; cbn.
+  - split; auto. apply tx_get_del_eq.
+  - split; auto.
+Qed.
+
+(* ROLLBACK, and a connection that closes or dies with an open transaction:
+   committed rows untouched, transaction (overlay, locks, savepoints) gone *)
+Theorem rollback_discards sch d c o :
+  o = ORollback \/ o = OClose ->
+  d_rows (fst (step sch d c o)) = d_rows d /\ tx_of (fst (step sch d c o)) c = None.
+Proof.
+  intros [->| ->]; cbn; split; auto; apply tx_get_del_eq.
+Qed.
+
+(* what a transaction may do before it ends *)
+Definition inner (o : op) : bool :=
+  match o with OStmt _ _ | OSave _ | ORollbackTo _ | ORelease _ => true | _ => false end.
+
+(* inside an open transaction nothing reaches the committed rows *)
+Theorem open_transaction_leaves_committed sch d c o x :
+  tx_of d c = Some x -> inner o = true ->
+  d_rows (fst (step sch d c o)) = d_rows d /\ exists x', tx_of (fst (step sch d c o)) c = Some x'.
+Proof.
+  unfold tx_of. intros T I. destruct o; try discriminate; cbn.
+  - unfold run_stmt. rewrite T. cbn. split; auto. rewrite tx_get_set_eq. eauto.
+  - rewrite T. cbn. split; auto. rewrite tx_get_set_eq. eauto.
+  - rewrite T. destruct (find_save name (x_saves x)) as [[sp older]|]; cbn; split; auto.
+    + rewrite tx_get_set_eq. eauto.
+    + eauto.
+  - rewrite T. destruct (find_save name (x_saves x)) as [[sp older]|]; cbn; split; auto.
+    + rewrite tx_get_set_eq. eauto.
+    + eauto.
+Qed.
+
+Lemma run_app sch d l1 l2 : run sch d (l1 ++ l2) = run sch (run sch d l1) l2.
+Proof. revert d; induction l1 as [|[c o] l1 IH]; intro d; cbn; auto. Qed.
+
+Lemma inner_run sch c ops : forall d x,
+  tx_of d c = Some x -> forallb inner ops = true ->
+  d_rows (run sch d (map (fun o => (c, o)) ops)) = d_rows d /\
+  exists x', tx_of (run sch d (map (fun o => (c, o)) ops)) c = Some x'.
+Proof.
+  induction ops as [|o ops IH]; intros d x T I; cbn [map run].
+  - eauto.
+  - cbn in I. apply andb_true_iff in I. destruct I as [I1 I2].
+    destruct (open_transaction_leaves_committed sch d c o x T I1) as [R [x1 T1]].
+    destruct (IH _ x1 T1 I2) as [R' T']. rewrite R'. auto.
+Qed.
+
+(* BEGIN; anything but COMMIT/BEGIN/ROLLBACK/CLOSE; ROLLBACK (or the connection
+   goes away): the committed rows are those before BEGIN *)
+Theorem rolled_back_transaction_leaves_no_trace sch d c ops fin :
+  tx_of d c = None -> forallb inner ops = true -> fin = ORollback \/ fin = OClose ->
+  let d' := run sch d ((c, OBegin) :: map (fun o => (c, o)) ops ++ [(c, fin)]) in
+  d_rows d' = d_rows d /\ tx_of d' c = None.
+Proof.
+  intros T I F. cbn [run].
+  assert (B : d_rows (fst (step sch d c OBegin)) = d_rows d /\
+              exists x, tx_of (fst (step sch d c OBegin)) c = Some x).
+  { cbn. unfold commit_conn, tx_of in *. rewrite T. cbn. split; auto. rewrite tx_get_set_eq. eauto. }
+  destruct B as [B1 [x0 B2]]. rewrite run_app.
+  destruct (inner_run sch c ops _ x0 B2 I) as [R _]. cbn [run].
+  destruct (rollback_discards sch (run sch (fst (step sch d c OBegin)) (map (fun o => (c, o)) ops)) c fin F)
+    as [R1 R2].
+  split; [congruence|exact R2].
+Qed.
+
+(* ================================================================ (b) isolation *)
+(* no dirty read: what a plain SELECT of c returns is determined by the
+   committed rows and c's own transaction; other connections' uncommitted writes
+   and locks play no part *)
+Theorem no_dirty_read sch d1 d2 c f w o lim args :
+  d_rows d1 = d_rows d2 -> tx_of d1 c = tx_of d2 c ->
+  snd (step sch d1 c (OStmt (SSelect f w o lim false) args)) =
+  snd (step sch d2 c (OStmt (SSelect f w o lim false) args)).
+Proof.
+  unfold tx_of. intros R T. cbn. unfold run_stmt, view. rewrite <- T, <- R.
+  destruct (tx_get c (d_txs d1)); cbn; unfold exec_select_l; cbn; reflexivity.
+Qed.
+
+(* a statement of c never changes, in what c sees, a row that another connection has locked *)
+Theorem foreign_locked_rows_untouched sch d c s args k :
+  others_hold (d_txs d) c k = true ->
+  lookup k (view (fst (step sch d c (OStmt s args))) c) = lookup k (view d c) \/
+  tx_of d c <> None.
+Proof.
+  intro H. destruct (tx_get c (d_txs d)) as [x|] eqn:T; [right; unfold tx_of; congruence|left].
+  cbn. unfold run_stmt, view. rewrite T. cbn. rewrite T.
+  apply (statement_respects_foreign_locks (others_hold (d_txs d) c) sch
+           {| ts_rows := d_rows d; ts_auto := d_auto d |} s args k H).
+Qed.
+
+(* the committed rows under a foreign lock survive any operation of c that is
+   not a COMMIT of writes made earlier (those were made under c's own locks) *)
+Theorem autocommit_respects_foreign_locks sch d c s args k :
+  tx_of d c = None -> others_hold (d_txs d) c k = true ->
+  lookup k (d_rows (fst (step sch d c (OStmt s args)))) = lookup k (d_rows d).
+Proof.
+  unfold tx_of. intros T H. cbn. unfold run_stmt, view. rewrite T. cbn.
+  apply (statement_respects_foreign_locks (others_hold (d_txs d) c) sch
+           {| ts_rows := d_rows d; ts_auto := d_auto d |} s args k H).
+Qed.
+
+(* two open transactions never hold a lock on the same row *)
+Definition locks_disjoint (d : dbst) : Prop :=
+  forall c1 c2 x1 x2 k, c1 <> c2 -> tx_of d c1 = Some x1 -> tx_of d c2 = Some x2 ->
+                        In k (x_locks x1) -> ~ In k (x_locks x2).
+
+Lemma others_hold_false txs c c2 x2 k :
+  others_hold txs c k = false -> c2 <> c -> tx_get c2 txs = Some x2 -> ~ In k (x_locks x2).
+Proof.
+  intros H N T I. apply tx_get_In in T.
+  assert (others_hold txs c k = true); [|congruence].
+  apply existsb_exists. exists (c2, x2). split; auto. cbn.
+  apply andb_true_iff. split.
+  - destruct (Nat.eqb c2 c) eqn:E; auto. apply Nat.eqb_eq in E. congruence.
+  - now apply holds_In.
+Qed.
+
+(* the locks c holds after a step: old ones, or ones nobody else held *)
+Lemma step_locks_origin sch d c o x' k :
+  tx_of (fst (step sch d c o)) c = Some x' -> In k (x_locks x') ->
+  (exists x, tx_of d c = Some x /\ In k (x_locks x)) \/ others_hold (d_txs d) c k = false.
+Proof.
+  unfold tx_of. destruct o; cbn.
+  - rewrite tx_get_set_eq. intro H; inversion H; subst. intros [].
+  - unfold commit_conn. destruct (tx_get c (d_txs d)) eqn:T; cbn; [rewrite tx_get_del_eq|rewrite T]; discriminate.
+  - rewrite tx_get_del_eq. discriminate.
+  - unfold run_stmt. destruct (tx_get c (d_txs d)) as [x|] eqn:T; cbn.
+    + rewrite tx_get_set_eq. intro H; inversion H; subst; cbn. intro I.
+      destruct (add_locks_ext (x_locks x) (r_locks (exec_l (others_hold (d_txs d) c) sch
+                  {| ts_rows := view d c; ts_auto := d_auto d |} s args))) as [suf [E S]].
+      rewrite E in I. apply in_app_or in I. destruct I as [I|I]; [left; eauto|right].
+      apply S in I. now apply statement_locks_are_free in I.
+    + rewrite T. discriminate.
+  - destruct (tx_get c (d_txs d)) as [x|] eqn:T; cbn.
+    + rewrite tx_get_set_eq. intro H; inversion H; subst; cbn. eauto.
+    + rewrite T. discriminate.
+  - destruct (tx_get c (d_txs d)) as [x|] eqn:T; cbn; [|rewrite T; discriminate].
+    destruct (find_save name (x_saves x)) as [[sp older]|]; cbn.
+    + rewrite tx_get_set_eq. intro H; inversion H; subst; cbn. intro I.
+      left. exists x. split; auto. rewrite <- (firstn_skipn (sp_nlocks sp) (x_locks x)). apply in_or_app. now left.
+    + rewrite T. intro H; inversion H; subst. eauto.
+  - destruct (tx_get c (d_txs d)) as [x|] eqn:T; cbn; [|rewrite T; discriminate].
+    destruct (find_save name (x_saves x)) as [[sp older]|]; cbn.
+    + rewrite tx_get_set_eq. intro H; inversion H; subst; cbn. eauto.
+    + rewrite T. intro H; inversion H; subst. eauto.
+  - rewrite tx_get_del_eq. discriminate.
+Qed.
